@@ -199,6 +199,9 @@ def run_federated_experiment(
   client_sampler.set_round_num(start_round_num)
 
   start = time.time()
+  # Defined even when the loop below does not run (restart after the last
+  # round): final evaluation then reports the last completed round.
+  round_num = start_round_num - 1
   for round_num in range(start_round_num, config.num_rounds + 1):
     # Get a random state and randomly sample clients.
     clients = client_sampler.sample()
